@@ -90,7 +90,7 @@ Section Fresh.
 
   (* C17_refines for the file-system store, from the freshly initialised store *)
   Theorem fs_refines : forall ops,
-    (forall k k', enc_key cfg k = enc_key cfg k' -> k = k') ->
+    (forall k k', wfb k -> wfb k' -> enc_key cfg k = enc_key cfg k' -> k = k') ->
     hist_ok (@Some (list N)) true spec_empty ops = true -> Forall (op_storable cfg) ops ->
     (N.of_nat (length ops) < 2 ^ 254)%N ->
     fs_obs cfg (fstate0 cfg) ops = spec_run (@Some (list N)) true spec_empty ops.
@@ -219,7 +219,7 @@ Qed.
 Section Usable.
   Variable cfg : fscfg.
   Hypothesis base_ok : path_ok (f_base cfg).
-  Hypothesis enc_inj : forall k k', enc_key cfg k = enc_key cfg k' -> k = k'.
+  Hypothesis enc_inj : forall k k', wfb k -> wfb k' -> enc_key cfg k = enc_key cfg k' -> k = k'.
   Variable C : list N -> list N -> Prop.
 
   Definition protected_len (q : list (list N)) : Prop := (length q <= length (f_base cfg) + 1)%nat.
@@ -286,7 +286,7 @@ Section Usable.
   Lemma exec_steady : forall sched f ws, inv cfg C f ws -> steady f -> steady (fst (exec f ws sched)).
   Proof.
     induction sched; intros f ws I S; simpl; auto.
-    pose proof (exec_ev_inv cfg enc_inj C f ws a I) as I1.
+    pose proof (exec_ev_inv cfg C f ws a I) as I1.
     pose proof (exec_ev_steady f ws a I S) as S1.
     destruct (exec_ev f ws a) as [f1 ws1]. simpl in *. apply IHsched; auto.
   Qed.
@@ -304,7 +304,7 @@ End Usable.
    storable key under an unused staging name succeeds and can be read back *)
 Theorem crash_usable : forall cfg ws sched,
   path_ok (f_base cfg) ->
-  (forall k k', enc_key cfg k = enc_key cfg k' -> k = k') ->
+  (forall k k', wfb k -> wfb k' -> enc_key cfg k = enc_key cfg k' -> k = k') ->
   Forall (writer_started cfg) ws ->
   let f := fst (exec (fs_fresh cfg) ws sched) in
   good cfg f /\
@@ -322,10 +322,10 @@ Proof.
     split; auto. split; auto. destruct (we_dest (w_env w)) eqn:X; auto. split; auto.
     exists w. repeat split; auto. congruence. }
   pose proof (inv_initial cfg (committed ws) ws R) as I0.
-  pose proof (exec_inv cfg EI (committed ws) sched _ _ I0) as I.
+  pose proof (exec_inv cfg (committed ws) sched _ _ I0) as I.
   pose proof (fresh_good cfg BO) as G0.
   assert (S0 : steady cfg (fs_fresh cfg)) by (repeat split; apply G0).
-  pose proof (exec_steady cfg EI (committed ws) sched _ _ I0 S0) as S.
+  assert (S : steady cfg (fst (exec (fs_fresh cfg) ws sched))) by (eapply exec_steady; eauto).
   pose proof (inv_steady_good cfg (committed ws) _ _ I S) as G. fold f in G, S.
   split; auto. split.
   - destruct S as [W [B T]]. unfold fs_init.
@@ -343,19 +343,19 @@ Proof.
 Qed.
 
 (* with the escaping function applied, every non-empty key whose escaped form fits a file name is storable *)
-Lemma escaping_storable : forall cfg k, escaping cfg -> k <> [] -> key_len_ok (enc_key cfg k) ->
+Lemma escaping_storable : forall cfg k, escaping cfg -> wfb k -> k <> [] -> key_len_ok (enc_key cfg k) ->
   (lenN (enc_key cfg k) <=? name_max)%N = true -> exists d, storable cfg k d.
 Proof.
-  intros cfg k E N L S. pose proof (esc_plain cfg k E N) as P.
+  intros cfg k E WF N L S. pose proof (esc_plain cfg k E N) as P.
   destruct (path_for_key_plain cfg k L P) as [cs [X _]].
-  eexists. split; auto. split; auto. split; eauto.
+  eexists. split; auto. split; auto. split; auto. split; eauto.
 Qed.
 
 (* without it (the pinned code), exactly the keys without '/', '.', NUL *)
-Lemma plain_storable : forall cfg k, q_no_escape cfg = true -> plain k -> key_len_ok k ->
+Lemma plain_storable : forall cfg k, q_no_escape cfg = true -> wfb k -> plain k -> key_len_ok k ->
   (lenN k <=? name_max)%N = true -> exists d, storable cfg k d.
 Proof.
-  intros cfg k Q P L S.
+  intros cfg k Q WF P L S.
   assert (E : enc_key cfg k = k) by (unfold enc_key; rewrite Q; auto).
   assert (P' : plain (enc_key cfg k)) by (rewrite E; auto).
   assert (L' : key_len_ok (enc_key cfg k)) by (rewrite E; auto).
